@@ -78,6 +78,25 @@ def sister_frames():
             frames.Frame(name, orient.EME2000, c)
 
 
+_late = []
+LATE_CAP = 25  # registrations per process (registries get slow beyond a few dozen)
+
+
+def late_frame():
+    """Registers one more frame (origin, axes and body of EME2000) NOW, i.e. after the pool members and their
+    clones were made; past the cap the last one is re-used."""
+    from beyond import constants
+    from beyond.frames import center, frames, orient
+
+    if len(_late) < LATE_CAP:
+        name = f"VF15late{os.getpid()}x{len(_late)}"
+        c = center.Center(name + "C", body=constants.Earth)
+        c.add_link(frames.EME2000.center, orient.EME2000, np.zeros(6))
+        frames.Frame(name, orient.EME2000, c)
+        _late.append(name)
+    return _late[-1]
+
+
 def setup(shard):
     env.eop("missing-pass")
     sister_frames()
@@ -108,13 +127,47 @@ def cov_values(c):
 
 
 def mkprop(name):
+    """None / a registered name (string, as the Orbit constructor accepts) / an instance"""
     if name is None:
         return None
-    from beyond.propagators.j2 import J2
-    from beyond.propagators.kepler import Kepler
+    if name.startswith("KeplerNum:"):
+        from beyond.dates import timedelta
+        from beyond.env.solarsystem import get_body
+        from beyond.propagators.keplernum import KeplerNum
 
-    cls = {"Kepler": Kepler, "J2": J2}[name.rstrip("()")]
-    return cls() if name.endswith("()") else name
+        _, step, method, tol = name.split(":")
+        return KeplerNum(timedelta(seconds=float(step)), get_body("Earth"), method=method, tol=float(tol))
+    if name.endswith("()"):
+        from beyond.propagators import get_propagator
+
+        return get_propagator(name[:-2])()
+    return name
+
+
+def prop_expected(name):
+    """the fingerprint (vf/oracles/sv_shadow.py:prop_fp) an orbit carrying propagator `name` must show"""
+    if name is None:
+        return "NoneType"
+    if name.startswith("KeplerNum:"):
+        _, step, method, tol = name.split(":")
+        return f"KeplerNum(step={float(step):g},method={method},frame=EME2000,tol={float(tol):g},bodies=Earth)"
+    return name.rstrip("()")
+
+
+def cov_container(vals, how):
+    """the 36 numbers as the container `how`; -> (object to hand over, the float64 array it stands for)"""
+    if how == "list":
+        return vals.tolist(), vals
+    if how == "tuple":
+        return tuple(tuple(r) for r in vals.tolist()), vals
+    if how == "ints":
+        return [[int(x) for x in r] for r in vals.tolist()], vals
+    if how == "int64":
+        return vals.astype(np.int64), vals
+    return vals.copy(), vals
+
+
+BUILD_ISSUES = []
 
 
 def build(spec):
@@ -123,17 +176,44 @@ def build(spec):
 
     date = mkdate(spec["date"])
     cart = go.cart_of(spec["el"])
-    meta = _copy.deepcopy(spec["meta"])
-    if spec["klass"] == "Orbit":
-        o = Orbit(cart, date, "cartesian", spec["frame"], mkprop(spec["prop"]), **meta)
+    how = spec.get("coords_as", "list")
+    if how == "tuple":
+        coords = tuple(cart)
+    elif how == "ndarray":
+        coords = np.array(cart, dtype=float)
+    elif how == "view":
+        coords = np.array([0.0] + list(cart) + [0.0])[1:7]
     else:
-        o = StateVector(cart, date, "cartesian", spec["frame"], **meta)
+        coords = list(cart)
+    meta = _copy.deepcopy(spec["meta"])
+    mans = [mkman(m, spec["date"]) for m in spec["mans"]]
+    if len(mans) == 1 and spec.get("man_as") == "ctor":
+        meta["maneuvers"] = mans[0]
+    if spec["klass"] == "Orbit":
+        o = Orbit(coords, date, "cartesian", spec["frame"], mkprop(spec["prop"]), **meta)
+    else:
+        o = StateVector(coords, date, "cartesian", spec["frame"], **meta)
+    if isinstance(coords, np.ndarray):
+        # the caller goes on using its array: the object must not follow
+        before = np.array(o, dtype=float).tobytes()
+        coords[:] = -1.0
+        if np.array(o, dtype=float).tobytes() != before:
+            BUILD_ISSUES.append(("caller-array-kept:coords", f"StateVector({how}) follows later changes of the caller's array"))
     if spec["form"] != "cartesian":
         o.form = spec["form"]
-    if spec["mans"]:
-        o.maneuvers = [mkman(m, spec["date"]) for m in spec["mans"]]
+    if mans and "maneuvers" not in meta:
+        o.maneuvers = mans[0] if len(mans) == 1 and spec.get("man_as") == "setter" else mans
     if spec["cov"]:
-        o.cov = Cov(o, cov_values(spec["cov"]), spec["cov"]["frame"] or o.frame)
+        given, vals = cov_container(cov_values(spec["cov"]), spec["cov"].get("as", "ndarray"))
+        o.cov = Cov(o, given, spec["cov"]["frame"] or o.frame)
+        if isinstance(given, np.ndarray):
+            given[:] = 0
+        got = np.array(o.cov, dtype=float)
+        if got.tobytes() != vals.tobytes():
+            BUILD_ISSUES.append((f"cov-values-as-given:{spec['cov'].get('as', 'ndarray')}",
+                                 f"Cov(..., values as {spec['cov'].get('as')}) holds {got[0].tolist()} ... for "
+                                 f"{vals[0].tolist()} ..."))
+            o.cov = Cov(o, vals.copy(), spec["cov"]["frame"] or o.frame)  # go on with what was meant
     if spec.get("touch"):
         o.maneuvers, o.cov  # noqa: B018 - the getters insert their default ([] / None) into _data
     return o
@@ -146,7 +226,7 @@ def rebuild(s, date, mans=()):
     from beyond.orbits.cov import Cov
 
     o = StateVector(S.coords_of(s).copy(), date, s["form"], s["frame"])
-    if s["cov"] is not None:
+    if s["cov"] is not None and np.all(np.isfinite(S.cov_of(s))):
         fr = s["cov"][0]
         if fr not in ("QSW", "TNW"):
             fr = o.frame if fr == s["frame"] else get_frame(fr)
@@ -174,6 +254,13 @@ def root_cause(kind, msg):
     if (kind == "model:pickle:cov" and "<no _data>" in msg) or (
             kind.startswith("raised:pickle:") and kind.endswith("AttributeError@orbits/cov.py:orb")):
         return "pickle:cov-data-lost"
+    if kind.startswith("model:") and kind.endswith(":prop") and "KeplerNum(" in msg and "tol=" in msg:
+        a, _, b = msg.rpartition(" -> ")
+        strip = lambda t: __import__("re").sub(r"tol=[^,]*,", "", t[t.rfind("KeplerNum("):])  # noqa: E731
+        if strip(a) == strip(b):
+            return "keplernum-copy-drops-tol"
+    if kind.startswith("cov-values-as-given:int"):
+        return "cov-values-as-given:integers"
     if kind.startswith("aliasing:"):
         link = kind.split(":")[1]
         if link and set(link.split("+")) <= {"as_orbit", "as_statevector"}:
@@ -185,7 +272,9 @@ def root_cause(kind, msg):
 class Machine:
     def __init__(self, case):
         self.case = case
+        del BUILD_ISSUES[:]
         self.pool = [build(s) for s in case["init"]]
+        self.build_issues = list(BUILD_ISSUES)
         self.shadow = [S.snap(o) for o in self.pool]
         self.dates = [o.date for o in self.pool]
         self.origin = [("init", None) for _ in self.pool]
@@ -255,6 +344,8 @@ class Machine:
             floor = np.where(np.abs(want) < 10.0, 1.0, 0.0)  # angles and ratios: absolute
             if self.ratio(S.rel_err(got, want, floor, S.ANGLE_IDX[exp["form"]]), coord_tol):
                 exp["coords"] = actual["coords"]
+        if exp["cov"] and actual["cov"] and not np.all(np.isfinite(S.cov_of(exp))):
+            exp["cov"] = actual["cov"]  # garbage in (reported where it came in), nothing to demand of it
         if cov_tol is not None and actual["cov"] and exp["cov"] and actual["cov"][0] == exp["cov"][0]:
             got, want = S.cov_of(actual), S.cov_of(exp)
             if self.ratio(S.rel_err(got, want, float(np.nanmax(np.abs(want)))), cov_tol):
@@ -429,7 +520,7 @@ class Machine:
             if s["cov"] is not None:
                 if s["cov"][0] == s["frame"]:
                     # documented: a covariance expressed in the frame of its state follows it
-                    e["cov"] = (e["frame"], rs["cov"][1] if rs["cov"] else "")
+                    e["cov"] = (e["frame"], rs["cov"][1] if rs["cov"] else s["cov"][1])
                 else:
                     e["cov"] = s["cov"]
             return e
@@ -456,6 +547,8 @@ class Machine:
 
         def arg(kind, nm):
             if not op.get("as_object"):
+                if kind == "form" and op.get("case", "lower") != "lower":
+                    return getattr(nm, op["case"])()
                 return nm
             return get_form(nm) if kind == "form" else get_frame(nm)
 
@@ -505,9 +598,25 @@ class Machine:
                     # not usable as a pool member: later ops on it would only repeat this failure
                     self.pop_member()
                     touched.discard(n)
+            elif name == "late_frame":
+                # a frame registered after every member (and clone) was made is reachable from all of them
+                fname = late_frame()
+                for idx, member in enumerate(self.pool):
+                    sh = self.shadow[idx]
+                    try:
+                        got = np.array(member.copy(frame=fname, form="cartesian"), dtype=float)
+                    except Exception as exc:
+                        self.lib_exc(exc, f"late_frame:{self.origin[idx][0]}")
+                        continue
+                    want = np.array(rebuild(dict(sh, cov=None), self.dates[idx]).copy(frame=fname, form="cartesian"),
+                                    dtype=float)
+                    if not self.ratio(S.rel_err(got, want, 0.0), CART_TOL):
+                        self.add(f"late-frame-differs:{self.origin[idx][0]}",
+                                 f"object {idx} ({self.origin[idx][0]}) converted to a frame registered after it was made: "
+                                 f"{got.tolist()}, a pristine object with the same state gives {want.tolist()}")
             elif name == "as_orbit":
                 new = o.as_orbit(mkprop(op["prop"]))
-                exp = dict(s, cls="Orbit", prop=op["prop"].rstrip("()"))
+                exp = dict(s, cls="Orbit", prop=prop_expected(op["prop"]))
                 touched.add(self.new_member(new, exp, i))
             elif name == "as_statevector":
                 if s["cls"] == "Orbit":
@@ -579,6 +688,16 @@ class Machine:
                 k = op["k"]
                 cur = S.coords_of(s).copy()
                 v = cur[k] * op["factor"] if cur[k] != 0 and np.isfinite(cur[k]) else 1e-3
+                vt = op.get("vtype", "float")
+                if vt == "numpy.float32":
+                    given = np.float32(v)
+                elif vt == "numpy.float64":
+                    given = np.float64(v)
+                elif vt == "int":
+                    given = int(v)
+                else:
+                    given = float(v)
+                v = float(given)
                 pname = S.FORM_PARAMS[s["form"]][k]
                 how = op["how"]
                 if how.startswith("alias"):
@@ -586,16 +705,16 @@ class Machine:
                     pname = al[op["alias"] % len(al)] if al else pname
                 try:
                     if how == "index":
-                        o[k] = v
+                        o[k] = given
                     elif how.endswith("attr"):
-                        setattr(o, pname, v)
+                        setattr(o, pname, given)
                     else:
-                        o[pname] = v
+                        o[pname] = given
                 except (AttributeError, KeyError) as exc:
                     self.add(f"access:{s['form']}.{S.FORM_PARAMS[s['form']][k]}",
                              f"assignment to '{pname}' (parameter {k} of {s['form']}) raises {type(exc).__name__}: {exc}",
                              form=s["form"], name=pname)
-                    o[k] = v
+                    o[k] = given
                 cur[k] = v
                 touched.add(i)
                 self.compare_touched(i, dict(s, coords=S.hexof(cur)))
@@ -634,7 +753,7 @@ class Machine:
                 self.compare_touched(i, dict(s, mans=mans))
             elif name == "set_mans":
                 ms = [mkman(m, self.date_spec[i]) for m in op["mans"]]
-                o.maneuvers = ms
+                o.maneuvers = ms[0] if len(ms) == 1 and op.get("single") else ms
                 touched.add(i)
                 self.compare_touched(i, dict(s, mans=[S.man_fp(m) for m in ms]))
             elif name == "replace_cov_entry":
@@ -650,10 +769,19 @@ class Machine:
                 touched.add(i)
                 self.compare_touched(i, exp)
             elif name == "attach_cov":
-                vals = cov_values(op["cov"])
-                o.cov = Cov(o, vals, op["cov"]["frame"] or o.frame)
+                given, vals = cov_container(cov_values(op["cov"]), op["cov"].get("as", "ndarray"))
+                o.cov = Cov(o, given, op["cov"]["frame"] or o.frame)
+                if isinstance(given, np.ndarray):
+                    given[:] = 0  # the caller goes on using its array
                 touched.add(i)
-                self.compare_touched(i, dict(s, cov=(op["cov"]["frame"] or s["frame"], S.hexof(vals))))
+                if np.array(o.cov, dtype=float).tobytes() != vals.tobytes():
+                    self.add(f"cov-values-as-given:{op['cov'].get('as', 'ndarray')}",
+                             f"Cov(..., values as {op['cov'].get('as')}) holds {np.array(o.cov, dtype=float)[0].tolist()} ... "
+                             f"for {vals[0].tolist()} ...")
+                    o.cov = Cov(o, vals.copy(), op["cov"]["frame"] or o.frame)  # go on with what was meant
+                self.compare_touched(i, dict(s, cov=(op["cov"]["frame"] or s["frame"], S.hexof(vals))),
+                                     what=f"attach_cov-{op['cov'].get('as', 'ndarray')}")
+                self.labels.append(f"cov-as:{op['cov'].get('as', 'ndarray')}")
             elif name == "del_cov":
                 del o.cov
                 touched.add(i)
@@ -732,6 +860,8 @@ def classify(case):
 def collect(case):
     m = Machine(case)
     m.opname = "init"
+    for kind, msg in m.build_issues:
+        m.add(kind, msg)
     for idx in range(len(m.pool)):
         m.access(idx)
     for k, op in enumerate(case["ops"]):
@@ -793,12 +923,6 @@ FINDINGS = {
     "c15-pickle-cov-data-lost":
         lambda facet, case, kind, msg, data: kind == "pickle:cov-data-lost" and "pickle" in _ops(case)
         and (any(i["cov"] for i in case["init"]) or "attach_cov" in _ops(case)),
-    "c15-unpickled-form-is-a-clone":
-        lambda facet, case, kind, msg, data: kind == "clone-form-not-equal" and data.get("how") == "pickle"
-        and any(o["op"] == "pickle" or (o["op"] == "clone" and o.get("how") == "pickle") for o in case["ops"]),
-    "c15-unpickled-frame-is-a-clone":
-        lambda facet, case, kind, msg, data: kind == "clone-frame-not-equal" and data.get("how") == "pickle"
-        and any(o["op"] == "pickle" or (o["op"] == "clone" and o.get("how") == "pickle") for o in case["ops"]),
     "c15-as-orbit-shares-data":
         lambda facet, case, kind, msg, data: kind in ("aliasing:as_orbit", "aliasing:as_statevector")
         and _maker_then_mutation(case, ("as_orbit", "as_statevector")),
